@@ -126,6 +126,12 @@ func main() {
 
 	// 5. C modules
 	cx := parseC(dir, cFiles, out, goCB, out.Facts["luaCheckView"] == "nestedView")
+	cx.trivial = map[string]bool{}
+	for _, p := range out.Procs {
+		if p.Kind == "gocb" && len(p.Nodes) == 1 {
+			cx.trivial[p.Name] = true
+		}
+	}
 	var capi []string
 	for _, name := range cx.order {
 		f := cx.funcs[name]
